@@ -270,6 +270,24 @@ def signatures(syms, ctx, kind):
     return [f"C07:{hexs(culprit)}:{role}"]
 
 
+# literals spelled like regular-expression idioms (longer than the exhaustive length bound of the quick tier)
+IDIOMS = ["{1}", "a{1}", "x{2}", "{1,2}", "a{,3}", "a{2,}", "(?:a)", "(?=a)", "(?!a)", "(?i)a", "(?P<x>a)", "(?#c)", "a*?", "a+?", "a??",
+          ".*", ".+?", "a.b", "(a)", "(a|b)", "a{", "a}", "{}", "{a}", "a$b", "^^a", "a$$", "a^", "$a", "^$", "a**", "a++", "?a", "*a", "+a",
+          "a-z", r"\[a-z\]", r"\[^a\]", r"x\[0-9\]+", "a&&b", "a~~b", "a#b", " a ", "a  b"]
+
+
+def idiom_syms(text):
+    out, i = [], 0
+    while i < len(text):
+        if text.startswith("\\[", i) or text.startswith("\\]", i):
+            out.append(text[i : i + 2])
+            i += 2
+        else:
+            out.append(text[i])
+            i += 1
+    return out
+
+
 def bounds(tier, seed):
     n = 2 if tier == "quick" else 3
     return {
@@ -279,6 +297,7 @@ def bounds(tier, seed):
         "long_literals_len40": len(SYMS) + len(SYMS) * (len(SYMS) - 1),
         "contexts": list(CONTEXTS),
         "cli_conformance": "grep + update for every single symbol in contexts pre/wrap",
+        "regex_idiom_literals": len(IDIOMS),
     }
 
 
@@ -293,6 +312,7 @@ def explore(tier, seed):
             for f in firsts:
                 chunks.append(("lits", k, f))
     chunks.append(("long", 0, None))
+    chunks.append(("idioms", 0, None))
     for part in pool.split(list(range(len(SYMS))), 8):
         chunks.append(("cli", 0, part))
     return pool.run_chunks(run_chunk, chunks)
@@ -311,6 +331,11 @@ def run_chunk(chunk):
                 judge(st, list(syms), ctx)
         if f in (None, 0):
             st.sample({"literal_symbols": list(space[-1]), "contexts": list(CONTEXTS), "pattern_wrap": build(list(space[-1]), "wrap")[0]})
+    elif kind == "idioms":
+        for text in IDIOMS:
+            for ctx in CONTEXTS:
+                judge(st, idiom_syms(text), ctx)
+        st.sample({"regex_idiom_literals": IDIOMS[:8]})
     elif kind == "long":
         for a in SYMS:
             judge(st, [a] * 40, "pre")
